@@ -3,6 +3,9 @@
 package sfnt
 
 import (
+	"seehuhn.de/go/postscript/type1"
+
+	"seehuhn.de/go/sfnt/cff"
 	"seehuhn.de/go/sfnt/glyf"
 	"seehuhn.de/go/sfnt/glyph"
 	"seehuhn.de/go/sfnt/opentype/coverage"
@@ -113,4 +116,24 @@ func VerifH_C20_names() {
 		verifAssert(f.GlyphName(glyph.ID(i)) != "", "installed names are retrievable per glyph")
 	}
 	checkNames(orig, f.MakeGlyphNames(), n)
+}
+
+// VerifH_C20_cff: the same rules for a CFF font: after EnsureGlyphNames every glyph reports the generated name.
+func VerifH_C20_cff() {
+	n := 3
+	o := &cff.Outlines{Private: []*type1.PrivateDict{{}}, FDSelect: func(glyph.ID) int { return 0 }}
+	orig := make([]string, n)
+	for i := 0; i < n; i++ {
+		orig[i] = verifName("name")
+		o.Glyphs = append(o.Glyphs, &cff.Glyph{Name: orig[i], Width: 500})
+	}
+	f := &Font{FamilyName: "Test", UnitsPerEm: 1000, Outlines: o}
+	f.CMapTable = verifCmap12([]rune{'A', 'B'}, []glyph.ID{1, 2})
+	got := f.MakeGlyphNames()
+	verifReach("named")
+	checkNames(orig, got, n)
+	f.EnsureGlyphNames()
+	for i := 0; i < n; i++ {
+		verifAssert(f.GlyphName(glyph.ID(i)) == got[i], "installed names are retrievable per glyph")
+	}
 }
